@@ -26,6 +26,8 @@ TermCat == << [tok |-> "42", t |-> S("int", "42")],
               [tok |-> "2006-01-02T15:04:05+07:00", t |-> S("date", "1136189045")],
               [tok |-> "hex:", t |-> S("bytes", "")],
               [tok |-> "hex:e1ab", t |-> S("bytes", "e1ab")],
+              [tok |-> "2024-12-31T23:59:59Z", t |-> S("date", "1735689599")],
+              [tok |-> "1970-01-01T00:00:00Z", t |-> S("date", "0")],
               [tok |-> "hex:EE00ff", t |-> S("bytes", "ee00ff")],
               [tok |-> "9223372036854775807", t |-> S("int", "9223372036854775807")],
               [tok |-> "$0", t |-> T("var", "0")],
